@@ -2583,6 +2583,9 @@ Proof.
   - destruct k; simpl in *; [inversion Hk; subst; eauto | apply IH; assumption].
 Qed.
 
+Lemma Forall2_len : forall A B (R : A -> B -> Prop) l l', Forall2 R l l' -> length l = length l'.
+Proof. intros A B R l l' H. induction H; simpl; congruence. Qed.
+
 Section BucketOrder.
 Variable hashf : list byte -> Z -> Z.
 Hypothesis hash_range : forall nm hs, hs_ok hs -> 0 <= hashf nm hs < hs.
@@ -2593,7 +2596,7 @@ Theorem tab_inv_bucket_order_irrelevant : forall names hs bs bs',
   tab_inv hashf names (mkntab hs (Some bs)) -> tab_inv hashf names (mkntab hs (Some bs')).
 Proof.
   intros names hs bs bs' Hp [Hhs [Hlen Hb]]. split; [assumption|]. simpl in *. split.
-  - rewrite <- (Forall2_length Hp). assumption.
+  - rewrite <- (Forall2_len _ _ _ _ _ Hp). assumption.
   - intros k ids' Hk. destruct (Forall2_nth_error_r _ _ _ _ _ _ _ Hp Hk) as (ids & Hids & Hperm).
     destruct (Hb _ _ Hids) as [Hnd Hiff]. split.
     + eapply Permutation_NoDup; eauto.
@@ -2673,7 +2676,7 @@ Lemma hash_delete_tail_walk_refuted :
     (exists t2', hash_delete_tail_walk bernstein t1 [97; 51] 3 = Some (Some t2') /\
                  hfind bernstein (del_nth 3 names1) t2' [97; 52] = None).
 Proof.
-  cbv zeta. eexists. split; [vm_compute; reflexivity|]. split.
-  - eexists. split; vm_compute; reflexivity.
-  - eexists. split; vm_compute; reflexivity.
+  cbv zeta. exists (mkntab 1 (Some [[0; 2; 3; 4; 1]%nat])). split; [vm_compute; reflexivity|]. split.
+  - exists (mkntab 1 (Some [[0; 2; 3; 1]%nat])). split; vm_compute; reflexivity.
+  - exists (mkntab 1 (Some [[0; 2; 4; 1]%nat])). split; vm_compute; reflexivity.
 Qed.
